@@ -35,6 +35,17 @@ fn main() {
         "world" => world::run(seed, count, &mut out, &mut st),
         "fault" => world::run_fault(seed, count, &mut out, &mut st),
         "twin" => world::run_twin(seed, count, &mut out, &mut st),
+        "search" => {
+            let input = std::fs::read_to_string(arg(&args, "--in").expect("--in FILE")).unwrap();
+            let o = world::search::Opts {
+                hist: arg(&args, "--hist").and_then(|s| s.parse().ok()).expect("--hist H"),
+                step: arg(&args, "--step").and_then(|s| s.parse().ok()).expect("--step K"),
+                w: arg(&args, "--w"),
+                depth: arg(&args, "--depth").and_then(|s| s.parse().ok()).unwrap_or(1),
+                max_exec: arg(&args, "--max").and_then(|s| s.parse().ok()).unwrap_or(20_000),
+            };
+            world::search::run(&input, &o, &mut out, &mut st);
+        }
         "replay" => {
             let input = std::fs::read_to_string(arg(&args, "--in").expect("--in FILE")).unwrap();
             if input.lines().any(|l| l.starts_with("CFG ")) {
@@ -51,7 +62,7 @@ fn main() {
             }
         }
         _ => {
-            eprintln!("usage: harness <integer|vamm|pricefeed|world|fault|twin|replay> --seed N --count N [--out F] [--stats F]");
+            eprintln!("usage: harness <integer|vamm|pricefeed|world|fault|twin|search|replay> --seed N --count N [--out F] [--stats F]");
             std::process::exit(2);
         }
     }
